@@ -1458,7 +1458,7 @@ class Workspace(AbstractContextManager):
         """
         Write the project attributes of an open workspace to geoh5.
         """
-        if self._geoh5:
+        if self._geoh5 is not None:
             self._io_call(H5Writer.write_attributes, self, mode="r+")
 
     def _io_call(self, fun, *args, mode="r", **kwargs):
